@@ -19,6 +19,7 @@ Definition nodes_of (l : list Grammar.tree) : list Grammar.tree := filter is_nod
 
 Inductive shape0 : Grammar.tree -> Arith.expr -> Prop :=
   | S0_num text q : lit_ok text q -> shape0 (Grammar.Node NUMBER [Tok NUMBER text]) (Lit q)
+  | S0_pct text rest q : lit_ok text q -> shape0 (Grammar.Node PERCENTAGE (Tok NUMBER text :: rest)) (Lit (q / (100 # 1))%Q)
   | S0_op ch base rest eb ee : nodes_of ch = base :: rest -> shape0 base eb -> pairs0 rest eb ee ->
       shape0 (Grammar.Node OPERATION ch) ee
 with pairs0 : list Grammar.tree -> Arith.expr -> Arith.expr -> Prop :=
@@ -74,6 +75,8 @@ Proof.
                     (fun l acc ee _ => forall al, Forall2 annotates l al -> pairs al acc ee)).
   - intros text q Hq p. rewrite annotate_node. cbn [fst annl annotate]. apply S_num; [reflexivity|].
     cbn [aspan atext]. rewrite app_nil_r. apply Hq.
+  - intros text rest q Hq p. rewrite annotate_node. cbn [fst]. rewrite annl_cons. cbn [fst annotate].
+    apply S_pct; [reflexivity|]. cbn [atext]. apply Hq.
   - intros ch base rest eb ee Hn _ IHb _ IHp p. rewrite annotate_node. cbn [fst].
     pose proof (skip_annl ch p) as F. rewrite Hn in F. inversion F as [|b ab r ar [q Hab] Fr Eb Ea]. subst.
     eapply S_op; [symmetry; eassumption|apply IHb|apply IHp; exact Fr].
@@ -201,7 +204,7 @@ Fixpoint tbin (r : tail) (m : nat) : binop :=
   match r with TNil => Add | TCons _ a _ _ _ r' => match m with O => abinop a | S m' => tbin r' m' end end.
 
 Fixpoint sem_operand (x : operand) : Arith.expr :=
-  match x with Num t => Lit (num_val t) | Paren _ _ _ e _ => sem_expr e end
+  match x with Num t => Lit (num_val t) | Pct t _ _ => Lit (num_val t / (100 # 1))%Q | Paren _ _ _ e _ => sem_expr e end
 with sem_expr (e : expr) : Arith.expr :=
   match e with
   | Chain x r =>
@@ -213,7 +216,7 @@ with tsem (r : tail) (m : nat) {struct r} : Arith.expr :=
   match r with TNil => Lit 0%Q | TCons _ _ _ _ x r' => match m with O => sem_operand x | S m' => tsem r' m' end end.
 
 Fixpoint readable_operand (x : operand) : Prop :=
-  match x with Num t => num_readable t | Paren _ _ _ e _ => readable_expr e end
+  match x with Num t | Pct t _ _ => num_readable t | Paren _ _ _ e _ => readable_expr e end
 with readable_expr (e : expr) : Prop := match e with Chain x r => readable_operand x /\ readable_tail r end
 with readable_tail (r : tail) : Prop := match r with TNil => True | TCons _ _ _ _ x r' => readable_operand x /\ readable_tail r' end.
 
@@ -233,6 +236,8 @@ Proof.
   apply syntax_mut.
   - intros t Hr w. cbn [trees_operand sem_operand]. rewrite nodes_of_app, nodes_of_wsT. cbn.
     eexists. split; [reflexivity|]. apply S0_num. apply num_lit_ok. exact Hr.
+  - intros t wp pt Hr w. cbn [trees_operand sem_operand]. rewrite nodes_of_app, nodes_of_wsT. cbn.
+    eexists. split; [reflexivity|]. apply S0_pct. apply num_lit_ok. exact Hr.
   - intros po pc w1 e IHe w2 Hr w. cbn [readable_operand] in Hr. destruct (IHe Hr w1) as [t [Nt St]].
     exists t. split; [|exact St]. cbn [trees_operand sem_operand].
     rewrite nodes_of_app, nodes_of_wsT. cbn [app]. unfold nodes_of at 1. cbn [filter is_node]. fold (nodes_of (trees_expr w1 e ++ wsT w2 ++ [Tok CLOSE_PAREN pc])).
